@@ -22,7 +22,7 @@ const STR_ACC: usize = 7;
 
 // ---- watchdog: a call that never returns is a violation, not a hung check ---------------------------
 static HEART: [AtomicU64; 64] = [const { AtomicU64::new(0) }; 64];
-static CURRENT: Mutex<Vec<String>> = Mutex::new(Vec::new());
+static CURRENT: [Mutex<String>; 64] = [const { Mutex::new(String::new()) }; 64];
 fn slot() -> usize {
     rayon::current_thread_index().map(|i| i + 1).unwrap_or(0) % 64
 }
@@ -32,11 +32,8 @@ fn beat() {
 fn note(s: &dyn Fn() -> String) {
     // only the string / format sweeps (where a hang is conceivable) pay for this
     let i = slot();
-    if let Ok(mut c) = CURRENT.lock() {
-        if c.len() <= i {
-            c.resize(64, String::new());
-        }
-        c[i] = s();
+    if let Ok(mut c) = CURRENT[i].lock() {
+        *c = s();
     }
     HEART[i].fetch_add(1, Ordering::Relaxed);
 }
@@ -55,7 +52,7 @@ fn start_watchdog() {
                 }
                 last[i] = v;
                 if stuck[i] >= 12 {
-                    let what = CURRENT.lock().map(|c| c.get(i).cloned().unwrap_or_default()).unwrap_or_default();
+                    let what = CURRENT[i].lock().map(|c| c.clone()).unwrap_or_default();
                     let dir = verif_dir().join("replays");
                     let _ = std::fs::create_dir_all(&dir);
                     let path = dir.join("C15-hang.json");
